@@ -210,3 +210,33 @@ func H_C06_union() {
 	verif.Assert(verif.Eq(got, want), "union")
 	verif.Reach("end")
 }
+
+// H_C06_distinct_group: DISTINCT applies to the output rows also when they
+// come from GROUP BY (a projection of the group key can repeat).
+func H_C06_distinct_group() {
+	n := verif.Choose("rows", maxRows(3, 4)+1)
+	form := verif.Choose("form", 2)
+	verif.Opt("maporder", 3)
+	doc, rows := numTable(n, "a", "b")
+	for _, r := range rows {
+		verif.Assume(verif.All(verif.NotNegZero(f64of(r["a"])), verif.NotNegZero(f64of(r["b"]))))
+	}
+	sql := "SELECT DISTINCT a FROM t GROUP BY a, b"
+	if form == 1 {
+		sql = "SELECT DISTINCT a, COUNT(*) AS n FROM t GROUP BY a, b"
+	}
+	got, ok := runQuery(doc, sql)
+	if !ok {
+		return
+	}
+	var proj []any
+	for _, g := range refGroupBy(rows, "a", "b") {
+		if form == 0 {
+			proj = append(proj, Map{"a": g.key[0]})
+		} else {
+			proj = append(proj, Map{"a": g.key[0], "n": len(g.members)})
+		}
+	}
+	verif.Assert(verif.Eq(got, refDistinct(proj)), "distinct-over-groups")
+	verif.Reach("end")
+}
